@@ -40,9 +40,10 @@ if revert:
         print("REVERT FAILED:", r.stderr[-1500:]); sys.exit(3)
 print(sh("git status --short | head -20", cwd=f"{W}/repo").stdout)
 sh(f"rsync -a --delete --exclude /harness/target/cli --exclude /logs --exclude /replays --exclude /evidence --exclude /.git /verif/ {W}/verif/")
-for f in [f"{W}/verif/harness/Cargo.toml"]:
-    s = open(f).read().replace('path = "/repo/', f'path = "{W}/repo/')
-    open(f, "w").write(s)
+for f in [f"{W}/verif/harness/Cargo.toml", f"{W}/verif/harness-wasm/Cargo.toml", f"{W}/verif/harness-wasm/src/main.rs"]:
+    if os.path.exists(f):
+        s = open(f).read().replace('path = "/repo/', f'path = "{W}/repo/')
+        open(f, "w").write(s)
 sh(f"cp {W}/repo/Cargo.lock {W}/verif/harness/Cargo.lock", check=False)
 env = dict(os.environ, VERIF_REPO=f"{W}/repo")
 if tests:
